@@ -3,7 +3,7 @@ EXTENDS SpyneXmlAttack, Json, IOUtils, SequencesExt
 \* behaviours of part 1 as scripts: every order of up to MaxInst constructions, then one request to each instance
 Scripts == UNION {{[creates |-> cs, serve |-> [inst |-> i, kind |-> k]] : i \in 1..n, k \in {"ext_general_file", "ext_dtd_file", "nest_300"}, cs \in [1..n -> BOOLEAN]} : n \in 1..MaxInst}
 Expect(s) == [relaxed |-> s.creates[s.serve.inst], succeeds |-> Resolves(IF s.creates[s.serve.inst] THEN Relaxed ELSE Default, s.serve.kind)]
-ASSUME JsonSerialize(IOEnv.OUT_FILE, [attacks |-> SetToSeq(Attacks), scripts |-> SetToSeq({[s |-> x, expect |-> Expect(x)] : x \in Scripts})])
+ASSUME JsonSerialize(IOEnv.OUT_FILE, [attacks |-> SetToSeq(IF IOEnv.FAMILY = "thorough" THEN AttacksMore ELSE Attacks), scripts |-> SetToSeq({[s |-> x, expect |-> Expect(x)] : x \in Scripts})])
 Init0 == insts = <<>> /\ shared = Default /\ served = {}
 Next0 == UNCHANGED vars
 ====
